@@ -49,6 +49,7 @@ func (z *fakeZK) LocateResource(r zk.ResourceName) (string, error) {
 		vrt.HLock()
 		defer vrt.HUnlock()
 	}
+	z.w.cl.ZKAttempt()
 	if z.w.frozen || z.w.zkSilent {
 		vrt.Await("zk.silent", func() bool { return !z.w.frozen && !z.w.zkSilent })
 	}
